@@ -87,3 +87,13 @@ def _bam_eager_write(viol, scenario):
     return (viol.oracle == "twin" and viol.kind == "bam.write.one_fails" and scenario.get("kind") == "bam"
             and str(d.get("eager_result", "")).strip('"').startswith("Raised")
             and not str(d.get("lazy_result", "")).strip('"').startswith("Raised"))
+
+
+@predicate("ragged_key_stream_groupby_typeerror")
+def _ragged_key_groupby(viol, scenario):
+    """KF-C11-ragged-key-groupby-typeerror: bnp.groupby over a STREAM whose grouping column is ragged text (a `str`-typed
+    field) raises TypeError inside npstructures (int() of a size-1 array, numpy >= 2) for every chunking, while the
+    in-memory group-by of the same table works."""
+    case = scenario.get("case") or {}
+    return (viol.oracle == "stream_eq_memory" and viol.kind == "groupby.groupby_chromosome_strkey:raises"
+            and case.get("op") == "groupby_chromosome_strkey" and "TypeError" in str(viol.detail.get("error", "")))
